@@ -11,7 +11,12 @@ attribute, the queue itself) cannot steer the verdict on a later lease.
 C26.7 is the liveness side of the two cancel_lease implementations: explored
 under the scenario "every lease found carries the cancelled secret", with the
 constant-stepped counters and flags followed exactly, the unlink must remain
-reachable."""
+reachable.  C26.8 is the safety side of the same counters: the unlink is
+reached only after the lease enumeration was run to exhaustion, and the
+enumerators hand out every slot.  C26.9 / C26.10 adopt the crawler-coverage
+rules of C27 and the lease-enumeration rules of C25; C26.11 requires the
+ShareCrawler hooks the expirer replaces without an upcall to be free of
+traversal bookkeeping."""
 from fractions import Fraction
 
 from sa.h import *
@@ -37,9 +42,22 @@ EXPLANATION = (
     "unexpired, never after queuing one; after one cancel_lease the loop over the expired list always continues; in "
     "both containers, under the scenario 'every lease found carries the cancelled secret' - match / remaining "
     "counters and flags followed with their exact values, every other test free - the unlink is reachable; a "
-    "fallback expire.mode is read only when expire.enabled is false. "
+    "fallback expire.mode is read only when expire.enabled is false; (8) 'no lease remains' is a statement about every "
+    "lease of the share: MutableShareFile.cancel_lease reaches its unlink only after the lease enumeration loop was run "
+    "to exhaustion (not from inside it, not after a break / return - explored with the match / remaining counters at "
+    "their exact values, so a break taken after a lease was counted as remaining is admitted), that loop runs over the "
+    "complete _enumerate_leases(), _enumerate_leases / MutableShareFile.get_leases leave their slot loop early only "
+    "through an exception handler, and ShareFile.cancel_lease filters its remaining list from the complete "
+    "get_leases(); (9, adopted from C27.1/.2/.3/.5) the crawler the expirer inherits reaches every bucket in every "
+    "cycle: progress markers, resume predicate, state saved and timer re-armed, traversal not overridden, cycle counter "
+    "and the end-of-cycle reset of last-complete-bucket / last_complete_prefix_index / current-cycle; (10, adopted from "
+    "C25.8/.9) the lease enumerations pair every lease with its own slot and a slot reads as empty only for owner_num 0; "
+    "(11) every ShareCrawler method the expirer replaces without an upcall (started_cycle, finished_cycle, "
+    "add_initial_state, process_bucket) does no traversal bookkeeping in the base class, directly or through "
+    "self.<m>() calls - a resume marker or cycle counter maintained in a replaced hook is lost for the lease crawler. "
     "Undecided: clock values, the arithmetic of parse_duration/parse_date (C48), lease record (de)serialisation and "
-    "the slot arithmetic of _read_lease_record (C25), that one crawl cycle reaches every share (C27), the "
+    "the slot offsets of _read_lease_record (C25.4/C25.6), the atomicity of the crawler state file and run-time "
+    "exceptions that abort a slice (C27.4/C27.6), the "
     "space-recovered / would_keep_share statistics and histograms, what happens to a share that already has no "
     "lease at all (it is never cancelled, hence never deleted), crashes (unbound locals, IndexError out of "
     "cancel_lease) that stop the crawler instead of deleting.")
@@ -965,6 +983,122 @@ def _decision_table(ps, paths, head, L, lease, want, report, select=None, list_e
     return cases
 
 
+_WRAPPERS = ("list", "tuple", "enumerate", "sorted", "reversed", "iter")
+_ENUMERATORS = ("_enumerate_leases", "get_leases")
+
+
+def _enumeration_source(fnorm, node, expr, depth=6):
+    """What a loop / comprehension iterates over, with local copies followed and the order-/shape-only wrappers
+    (list, enumerate, sorted ..) removed: ("full", call) for <x>._enumerate_leases(..) / <x>.get_leases(),
+    ("partial", expr) for a slice / islice / takewhile .. of anything, ("other", expr) otherwise."""
+    e = expr
+    while depth > 0:
+        depth -= 1
+        if isinstance(e, ast.Name):
+            e2 = fnorm.resolve(node, e)
+            if e2 is e:
+                break
+            e = e2
+            continue
+        if isinstance(e, ast.Call) and call_name(e) in _WRAPPERS and len(e.args) >= 1:
+            e = e.args[0]
+            continue
+        break
+    if isinstance(e, ast.Call) and call_tail(e) in _ENUMERATORS and isinstance(e.func, ast.Attribute):
+        return "full", e
+    if isinstance(e, ast.Subscript) or (isinstance(e, ast.Call) and call_tail(e) in (
+            "islice", "takewhile", "dropwhile", "filter", "filterfalse", "zip", "compress")):
+        return "partial", e
+    return "other", e
+
+
+def _unlink_outside_exhausted_loop(f, cfg, head, targets):
+    """[(target node, phase, Witness)]: ways to reach a `targets` node (the unlink) that have not run the loop at
+    `head` to exhaustion - before the loop, from inside its body, or after leaving it by break / return / an
+    exception - with the constant-stepped counters and flags of f followed exactly (a break taken after the
+    remaining-counter was stepped cannot pass a later 'counter == 0' test)."""
+    tracked = _const_counters(f, cfg)
+    body = {id(x) for st in head.ast.body for x in ast.walk(st)}
+
+    def transfer(n, lab, nxt, st):
+        phase, envt = st
+        if lab == "exc":
+            env = dict(envt)
+        else:
+            env, _v = _exact_step(n, lab, dict(envt), tracked)
+            if env is None:
+                return None
+        if n is head:
+            if lab == "iter":
+                phase = "inside"
+            elif lab == "done":
+                phase = "done"
+            else:
+                phase = "early"
+        elif phase == "inside" and nxt is not head and id(nxt.ast) not in body:
+            phase = "early"
+        return (phase, frozenset(env.items()))
+
+    visited, parent = explore(cfg, ("before", frozenset()), transfer)
+    out, seen = [], set()
+    for (nid, st) in sorted(visited, key=lambda x: (x[0], x[1][0], repr(sorted(x[1][1], key=repr)))):
+        n = cfg.nodes[nid]
+        if st[0] != "done" and targets(n) and (nid, st[0]) not in seen:
+            seen.add((nid, st[0]))
+            out.append((n, st[0], witness(cfg, parent, (nid, st))))
+    return out, len(visited)
+
+
+_BOOKKEEPING_KEYS = ("last-complete-bucket", "last-complete-prefix", "current-cycle", "last-cycle-finished")
+_BOOKKEEPING_ATTRS = ("self.last_complete_prefix_index", "self.bucket_cache", "self.state", "self.prefixes")
+
+
+def _bookkeeping_writes(base_cls, fn, seen=None, depth=3):
+    """[(function, ast node, what)]: writes of the crawler's traversal bookkeeping (resume markers, cycle counter)
+    in fn or in the methods of `base_cls` it reaches through self.<m>() calls."""
+    seen = set() if seen is None else seen
+    if fn.qual in seen or depth < 0:
+        return []
+    seen.add(fn.qual)
+    me = fn.params[0] if fn.params else "self"
+    out = []
+    fnorm = FlowNorm(fn)
+    for n in fn.cfg().nodes:
+        a = n.ast
+        if n.kind != "stmt":
+            continue
+        tgts = []
+        if isinstance(a, ast.Assign):
+            tgts = list(a.targets)
+        elif isinstance(a, (ast.AugAssign, ast.AnnAssign)):
+            tgts = [a.target]
+        elif isinstance(a, ast.Delete):
+            tgts = list(a.targets)
+        for t in tgts:
+            for x in (t.elts if isinstance(t, (ast.Tuple, ast.List)) else [t]):
+                if isinstance(x, ast.Subscript) and isinstance(x.slice, ast.Constant) and x.slice.value in _BOOKKEEPING_KEYS \
+                        and fnorm.norm(n, x.value) == "%s.state" % me:
+                    out.append((fn, a, "state[%r]" % x.slice.value))
+                elif isinstance(x, ast.Attribute) and attr_path(x) in [p.replace("self", me, 1) for p in _BOOKKEEPING_ATTRS]:
+                    out.append((fn, a, attr_path(x)))
+        for c in node_calls(n):
+            if isinstance(c.func, ast.Attribute) and c.func.attr in ("update", "pop", "clear", "setdefault") \
+                    and fnorm.norm(n, c.func.value) == "%s.state" % me:
+                keys = [k.value for k0 in c.args for k in (k0.keys if isinstance(k0, ast.Dict) else [k0])
+                        if isinstance(k, ast.Constant)]
+                for k in keys:
+                    if k in _BOOKKEEPING_KEYS:
+                        out.append((fn, a, "state[%r]" % k))
+                if c.func.attr == "clear":
+                    out.append((fn, a, "state"))
+    for c in calls_in_func(fn):
+        if isinstance(c.func, ast.Attribute) and attr_path(c.func.value) == me:
+            m = base_cls.lookup(c.func.attr)
+            if m is not None:
+                out += _bookkeeping_writes(base_cls, m, seen, depth - 1)
+    return out
+
+
 # =====================================================================
 def run(ctx: Context):
     idx = ctx.idx
@@ -1397,6 +1531,102 @@ def run(ctx: Context):
                             "cannot be reached: a share whose leases have all expired is never deleted (%s)" % (
                                 why or "no path from the matching branch"))
 
+    # -- 8. 'no lease remains' is a statement about ALL leases of the share ----------
+    # MutableShareFile.cancel_lease decides the unlink from a counter stepped while the lease slots are enumerated:
+    # the counter says "no lease remains" only once the enumeration has been run to its end.  Leaving the loop at the
+    # matched lease (break / return / unlink from inside the loop) makes 'remaining == 0' a statement about the slots
+    # seen so far - a share with an expired lease in a low slot and a valid one in a later slot is deleted.
+    # ShareFile.cancel_lease decides from the length of the filtered list: that list must be filtered from the
+    # complete enumeration.
+    with ctx.rule("C26.8", "R3/E3", "the 'no lease remains' test that admits the unlink covers every lease of the share: "
+                  "MutableShareFile.cancel_lease reaches the unlink only after its lease enumeration loop is exhausted "
+                  "(never from inside it or after a break / return; counters followed exactly), the loop runs over the "
+                  "complete enumeration; MutableShareFile._enumerate_leases / get_leases leave their slot loop early only through an "
+                  "exception handler; ShareFile.cancel_lease filters the complete lease list", expected=6) as r:
+        g = idx.func("storage.mutable:MutableShareFile.cancel_lease")
+        gcfg = g.cfg()
+        gnorm = FlowNorm(g)
+        mts = [n for n in gcfg.nodes if n.kind == "test" and any(call_tail(c) == "is_cancel_secret" for c in node_calls(n))]
+        if len(mts) != 1:
+            raise AnchorVanished("MutableShareFile.cancel_lease: is_cancel_secret test")
+        mcall = [c for c in node_calls(mts[0]) if call_tail(c) == "is_cancel_secret"][0]
+        loop = _enclosing_for(g, mcall)
+        if loop is None:
+            raise AnchorVanished("MutableShareFile.cancel_lease: the is_cancel_secret test is no longer inside a for loop "
+                                 "over the leases")
+        # the innermost for loop around the secret test is the enumeration of the share's leases
+        ghead = [n for n in gcfg.nodes if n.kind == "iter" and n.ast is loop]
+        if len(ghead) != 1:
+            raise AnchorVanished("MutableShareFile.cancel_lease: lease loop head")
+        ghead = ghead[0]
+        r.site(g, loop, "lease enumeration loop")
+        kind, what = _enumeration_source(gnorm, ghead, loop.iter)
+        if kind == "other":
+            raise AnchorVanished("MutableShareFile.cancel_lease: the loop around the is_cancel_secret test iterates over %s, "
+                                 "not over _enumerate_leases()/get_leases()" % src(g, what))
+        r.site(g, what, "enumeration source")
+        r.require(kind == "full", g, g.loc(what), "cancel_lease looks at a part of the share's leases only (%s): the "
+                  "leases left out are neither cancelled nor counted as remaining, the share can be deleted while one of "
+                  "them is valid" % src(g, what))
+        un = gcfg.find(has_call("unlink"))
+        if not un:
+            raise AnchorVanished("MutableShareFile.cancel_lease no longer unlinks")
+        for n in un:
+            r.site(g, n.ast, "unlink after exhausted enumeration")
+        bad, nstates = _unlink_outside_exhausted_loop(g, gcfg, ghead, has_call("unlink"))
+        r.count(nstates)
+        how = {"before": "before the lease slots were enumerated", "inside": "from inside the lease enumeration loop",
+               "early": "after leaving the lease enumeration loop early (break / return / exception)"}
+        for (n, phase, w) in bad:
+            r.violation(g, g.loc(n.ast), "the mutable share can be unlinked %s: 'no lease remains' then only covers the "
+                        "slots enumerated so far, a share with a still-valid lease in a later slot is deleted "
+                        "(path: %s)" % (how[phase], w.brief()), w)
+        # the mutable enumerators themselves go through every slot: their slot loop is left before exhaustion only
+        # through an exception handler (IndexError from a slot that does not exist) - stopping at an empty slot hides
+        # the leases behind a cancelled one, from process_share as well as from the remaining-counter above.
+        # (ShareFile.get_leases reads sequentially: stopping at an empty read is the end of the file, so it is not bound.)
+        for q in ("storage.mutable:MutableShareFile._enumerate_leases", "storage.mutable:MutableShareFile.get_leases"):
+            en = idx.func(q)
+            ecfg = en.cfg()
+            enorm = FlowNorm(en)
+            loops = [n for n in ecfg.nodes if n.kind == "iter" and any(
+                isinstance(y, (ast.Yield, ast.YieldFrom)) or (isinstance(y, ast.Call) and call_tail(y) == "append")
+                for st in n.ast.body for y in ast.walk(st))]
+            if len(loops) != 1:
+                raise AnchorVanished("%s: expected one loop that hands out the leases, found %d" % (en.qual, len(loops)))
+            eh = loops[0]
+            r.site(en, eh.ast, "slot loop runs to exhaustion")
+            if q.endswith(".get_leases"):
+                kind, what = _enumeration_source(enorm, eh, eh.ast.iter)
+                r.require(kind == "full", en, en.loc(eh.ast.iter), "MutableShareFile.get_leases hands out %s, not the complete "
+                          "enumeration of the lease slots: process_share does not see every lease of the share" % src(en, what))
+            for (t, w) in find_path_avoiding(ecfg, lambda x: x.kind == "exit", gate_node=lambda x: x.kind == "except",
+                                             gate_edge=lambda x, lab, _h=eh: x is _h and lab == "done"):
+                r.violation(en, en.loc(eh.ast), "%s can stop handing out leases before every slot was looked at, outside an "
+                            "exception handler: leases in the slots behind are neither examined by the expirer nor counted as "
+                            "remaining by cancel_lease, so the share is deleted while one of them is valid "
+                            "(path: %s)" % (short(en), w.brief()), w)
+                break
+            r.count(len(ecfg.nodes))
+        # immutable: the remaining list is filtered from the complete list of leases
+        f = idx.func("storage.immutable:ShareFile.cancel_lease")
+        fcfg = f.cfg()
+        fnorm2 = FlowNorm(f)
+        comps = [(n, assign_value(n, t.id)) for n in fcfg.nodes if n.kind == "stmt" and isinstance(n.ast, ast.Assign)
+                 for t in n.ast.targets if isinstance(t, ast.Name) and isinstance(assign_value(n, t.id), ast.ListComp)]
+        if not comps:
+            raise AnchorVanished("ShareFile.cancel_lease: no filtered list of remaining leases")
+        for (n, comp) in comps:
+            kind, what = _enumeration_source(fnorm2, n, comp.generators[0].iter)
+            if kind == "other":
+                continue
+            r.site(f, comp, "remaining leases filtered from %s" % src(f, what))
+            r.require(kind == "full" and len(comp.generators) == 1, f, f.loc(comp), "the list of remaining leases is "
+                      "filtered from a part of the share's leases only (%s): the leases left out are dropped from the "
+                      "share, and the share is deleted when nothing else remains" % src(f, what))
+        if not any(_enumeration_source(fnorm2, n, c.generators[0].iter)[0] != "other" for (n, c) in comps):
+            raise AnchorVanished("ShareFile.cancel_lease: the list of remaining leases is not filtered from get_leases()")
+
     # -- 5. configuration plumbing -----------------------------------------------
     with ctx.rule("C26.5", "R5", "tahoe.cfg [storage]expire.* -> StorageServer(expiration_*) -> "
                   "LeaseCheckingCrawler.__init__ -> self.{expiration_enabled, mode, override_lease_duration, "
@@ -1584,3 +1814,52 @@ def run(ctx: Context):
                     return bool(ft) and ft[0] == "==" and set(ft[1:]) == {repr(_m), "self.mode"}
                 for (t, w) in find_path_avoiding(icfg, lambda x, _n=n: x is _n, gate_edge=under):
                     r.violation(ci, ci.loc(n.ast), "self.%s is set outside mode %r" % (attr, modeval), w)
+
+    # -- 11. the hooks the expirer replaces are pure notifications ------------------------
+    # LeaseCheckingCrawler overrides started_cycle / finished_cycle / add_initial_state / process_bucket without an
+    # upcall ("No upcall is necessary").  That is only sound while the replaced ShareCrawler method does none of the
+    # traversal bookkeeping: a resume marker or cycle counter maintained in a base-class hook is maintained for the
+    # bucket counter but silently not for the lease crawler, which then carries the old resume position into every
+    # later cycle and never examines the shares in front of it.
+    with ctx.rule("C26.11", "R4", "every ShareCrawler method that LeaseCheckingCrawler overrides without an upcall does none of "
+                  "the traversal bookkeeping (resume markers, cycle counter, prefix index) in the base class - directly or in "
+                  "the self.<m>() methods it calls - so the lease crawler loses none of it", expected=6) as r:
+        lc = idx.cls(EXPIRER)
+        base = idx.cls("storage.crawler:ShareCrawler")
+        if base not in lc.mro():
+            raise AnchorVanished("LeaseCheckingCrawler no longer derives from ShareCrawler")
+        for name, m in sorted(lc.methods.items()):
+            bm = base.methods.get(name)
+            if bm is None:
+                continue
+            upcalls = [c for c in calls_in_func(m, into_lambda=True) if call_tail(c) == name and isinstance(c.func, ast.Attribute)
+                       and attr_path(c.func.value) != (m.params[0] if m.params else "self")]
+            if upcalls:
+                # the upcall happens on every normal path through the override
+                un_ = [n for n in m.cfg().nodes if any(c is u for u in upcalls for c in node_calls(n))]
+                if not find_path_avoiding(m.cfg(), lambda x: x.kind == "exit", gate_node=lambda x: any(x is y for y in un_)):
+                    r.site(m, None, "extends ShareCrawler.%s (upcall on every path)" % name)
+                    continue
+            r.site(m, None, "replaces ShareCrawler.%s" % name)
+            r.count(len(bm.cfg().nodes))
+            seen_what = set()
+            for (wf, wa, what) in _bookkeeping_writes(base, bm):
+                if what in seen_what:
+                    continue
+                seen_what.add(what)
+                r.violation(m, wf.loc(wa), "LeaseCheckingCrawler.%s replaces ShareCrawler.%s %s, but the base method "
+                            "maintains the crawler's traversal bookkeeping (%s written in %s): the lease crawler never "
+                            "performs it, so its resume position / cycle counter goes stale and later cycles skip shares" % (
+                                name, name, "without an upcall" if not upcalls else "and can return without its upcall",
+                                what, short(wf)))
+
+    # -- 9./10. adopted necessary conditions ----------------------------------------------
+    # "such a share is deleted within one crawl cycle" and "only if every lease on it is expired" rest on two things
+    # this file does not look at itself: the crawler the expirer inherits reaches every bucket in every cycle (C27:
+    # progress markers, resume predicate, saved state / re-armed timer / inherited traversal, cycle counter and the
+    # end-of-cycle reset of the resume position - a marker carried into the next cycle makes it skip every bucket that
+    # sorts before it, so shares expiring after the first cycle are never examined), and the lease enumerations that
+    # process_share and cancel_lease loop over hand out every lease of the share (C25: a slot skipped by
+    # _enumerate_leases / read as empty is a lease that is neither examined nor counted as remaining).
+    ctx.include("C27", ["C27.1", "C27.2", "C27.3", "C27.5"], "C26.9")
+    ctx.include("C25", ["C25.8", "C25.9"], "C26.10")
